@@ -38,6 +38,24 @@ VOCAB = set(x for v in SYN.values() for x in v) | {"tilt_x", "tilt_y", "tilt_z",
 def run(R):
     R.assume("real arithmetic where |d| != 0, wavelength != 0; generic branch of 'if chi != 0 / wedge != 0 / t != 0' tests")
     mods = {"transform": pyfacts.module(R, TR), "point_by_point": pyfacts.module(R, PBP)}
+    if R.want("C01.R6"):
+        R.rule("C01.R6", "the two 'omp parallel for' loops of cdiffraction.c: scalars/arrays private, shared writes only at row i (E2)")
+        tus = cfront.load(R.root, files=["cdiffraction.c"])
+        omp.report(R, "C01.R6", tus, select=lambda f: f.file == CD, floor=2)
+        from engine import definit
+        for f in cfront.all_funcs(tus):
+            if f.file != CD:
+                continue
+            an, reps = definit.analyse(f, tus)
+            seen = set()
+            for name, idx, line, what in reps:
+                if (name, idx) in seen:
+                    continue
+                seen.add((name, idx))
+                R.violation("C01.R6/E3", f.file, line, f.name, "%s%s" % (name, idx),
+                            "local '%s' may be read before it is assigned in this iteration (private copies start undefined in every thread: a value "
+                            "kept from the previous iteration is not there at the start of a thread's chunk)" % name)
+            R.inst("C01.R6", "%s:%s definite initialisation of locals (%d reads)" % (f.file, f.name, an.n_reads), ok=not reps)
     if R.want("C01.R1"):
         r1(R)
     if R.want("C01.R2") or R.want("C01.R4"):
@@ -46,10 +64,8 @@ def run(R):
         r3(R, mods)
     if R.want("C01.R5"):
         r5(R)
-    if R.want("C01.R6"):
-        R.rule("C01.R6", "the two 'omp parallel for' loops of cdiffraction.c: scalars/arrays private, shared writes only at row i (E2)")
-        tus = cfront.load(R.root, files=["cdiffraction.c"])
-        omp.report(R, "C01.R6", tus, select=lambda f: f.file == CD, floor=2)
+    if R.want("C01.R7"):
+        r7(R)
 
 
 # --------------------------------------------------------------------------------------------------
@@ -459,6 +475,79 @@ def r5(R):
     R.check("transform.Ctransform(pars.parameters)" in fu.replace(" ", "").replace("(pars", "(pars") or "transform.Ctransform(pars.parameters)" in fu, "C01.R5", CF, top[0].lineno,
             "columnfile.updateGeometry", "fast: Ctransform(pars.parameters)", "fast route is not built from the same parameter set")
     rg_compute_gv(R, "C01.R5")
+
+
+def r7(R):
+    """the fast route of columnfile.updateGeometry / updateGV evaluates the geometry with a transform.Ctransform object, which copies
+    the 16 geometry parameters when it is constructed.  The parameters object of a columnfile is mutable in place
+    (parameters.set / loadparameters / parameters.parameters[...] = ...), so the Ctransform whose sf2xyz / sf2gv is called must have
+    been constructed from pars.parameters in this call: a Ctransform that survives from an earlier call is accepted only when the
+    conditions on that path compare parameter *values*."""
+    R.rule("C01.R7", "columnfile.updateGeometry / updateGV (fast): the Ctransform whose sf2xyz / sf2gv is called is constructed from "
+                     "pars.parameters on every path of this call (the parameters object is mutable in place; a Ctransform kept from an "
+                     "earlier call holds a snapshot of old values)")
+    m = pyfacts.module(R, CF)
+    n = 0
+    for q in ("columnfile.updateGeometry", "columnfile.updateGV"):
+        fn = m.ifunc(q, depth=2)
+        cfg = pyfacts.PyCFG(fn)
+        calls = [c for c in ast.walk(fn) if isinstance(c, ast.Call) and isinstance(c.func, ast.Attribute) and c.func.attr in ("sf2xyz", "sf2gv", "xyz2gv", "xyz2geometry")]
+        for c in calls:
+            n += 1
+            at = cfg.node_of(pyfacts.containing_stmt(c))
+            R.shape(at is not None, "C01.R7", CF, q, "the statement calling %s" % src(c.func))
+            work = [(src(c.func.value), at, [])]
+            done = 0
+            verdicts = []
+            while work and done < 200:
+                done += 1
+                target, node, guards = work.pop()
+                for v, g in cfg.reaching(node, target):
+                    gs = guards + g
+                    if v is None:
+                        verdicts.append(("entry", target, gs))
+                    elif v == "unknown":
+                        verdicts.append(("unknown", target, gs))
+                    elif isinstance(v, ast.Call) and (pyfacts.dotted(v.func) or "").split(".")[-1] == "Ctransform":
+                        verdicts.append(("built", v, gs))
+                    elif isinstance(v, (ast.Name, ast.Attribute)):
+                        # a copy: follow it from the statement that made the copy
+                        st = [x for x in cfg.nodes if x.k == "stmt" and isinstance(x.node, ast.Assign) and x.node.value is v]
+                        if st:
+                            work.append((src(v), st[0], gs))
+                        else:
+                            verdicts.append(("unknown", target, gs))
+                    elif isinstance(v, ast.IfExp):
+                        verdicts.append(("unknown", target, gs))
+                    else:
+                        verdicts.append(("unknown", target, gs))
+            for kind, what, gs in verdicts:
+                if kind == "built":
+                    a0 = what.args[0] if what.args else None
+                    ok = a0 is not None and src(a0).replace(" ", "") in ("pars.parameters", "self.parameters.parameters")
+                    R.check(ok, "C01.R7", CF, what.lineno, q, "%s for %s" % (src(what), src(c.func)),
+                            "the compiled transform is not built from the parameter values of this columnfile")
+                elif kind == "entry":
+                    # value-reading conditions: a comparison (== / !=) one side of which reads .parameters / .get( of the parameter object
+                    def reads_values(t):
+                        for x in ast.walk(t):
+                            if isinstance(x, ast.Compare) and any(isinstance(o, (ast.Eq, ast.NotEq)) for o in x.ops) and \
+                                    (".parameters" in src(x) or ".get(" in src(x)):
+                                return True
+                        return False
+                    valued = [t for t, pol in gs if reads_values(t)]
+                    if valued:
+                        R.shape(False, "C01.R7", CF, q, "a Ctransform kept across calls under a comparison of parameter values (%s): whether "
+                                "that comparison covers every geometry parameter is not decided here" % src(valued[0])[:80])
+                    R.check(False, "C01.R7", CF, c.lineno, q, "%s: %s comes from an earlier call when %s" % (
+                        src(c.func), what, " and ".join(("%s" if pol else "not (%s)") % src(t) for t, pol in gs if what.split(".")[-1] in src(t) or "pars" in src(t)) or "(no condition)"),
+                        "the fast route reuses a Ctransform constructed in an earlier call; no condition on that path compares parameter values, "
+                        "and the parameters object is changed in place by parameters.set / loadparameters: after such a change the fast route "
+                        "computes xl..gz with the old geometry while the slow route uses the new one")
+                else:
+                    R.shape(False, "C01.R7", CF, q, "where the object %s (receiver of %s) is constructed" % (what, src(c.func)))
+    R.shape(n >= 3, "C01.R7", CF, "columnfile.updateGeometry", "calls of Ctransform.sf2xyz / sf2gv on the fast route")
+    R.floor("C01.R7", 3)
 
 
 def rg_compute_gv(R, rule):
